@@ -848,7 +848,17 @@ func c07Remove(r *Run, rem *ssa.Function) {
 	}
 	r.Check(okOrder && onFound(cancel) && onFound(del) && sameEntry && del.Call.Args[1] == lk.Index, "flush", "reqMap.remove: cancel then delete on the found edge", rem.Pos(),
 		"the entry is deleted without (or before) cancelling its handler, or a different entry is cancelled")
-	for _, ret := range returnsOf(rem) {
-		r.Check(ret.Results[0] == found, "flush", "reqMap.remove: reports whether the tag was outstanding", ret.Pos(), "the result does not say whether an entry was found")
+	for _, ret := range returnSites(rem) {
+		// the result is the lookup's `found` flag itself, or the constant that equals it on this exit
+		okRes := ret.Results[0] == found
+		if c, isC := ret.Results[0].(*ssa.Const); isC && c.Value != nil {
+			want := c.Value.String() == "true"
+			for _, cd := range ret.Conds() {
+				if nc := normCond(cd); nc.V == found && nc.Truth == want {
+					okRes = true
+				}
+			}
+		}
+		r.Check(okRes, "flush", "reqMap.remove: reports whether the tag was outstanding", ret.Pos(), "the result does not say whether an entry was found")
 	}
 }
